@@ -120,6 +120,12 @@ Print Assumptions C19_script_worlds.
    (Model.step) after [pre].  Every view query made at that point returns the
    exact view of THAT graph; the graph is closed, and short when every declared
    chain has at most 16 hops. *)
+(* Module activity (shut down, waiting for a restart, down after a caught
+   panic) is not part of the gate graph: the world has no activity field, the
+   operation [ODown] that declares modules down during the run-time part of a
+   script leaves the interpreter state unchanged (Model.step), so the statement
+   below covers histories with any modules down: `view (set_active w m b) = view w`
+   holds by construction for every view function. *)
 Theorem C19_history_exact : forall counts chains pre,
   let s := state_after (init_state (build_world counts chains)) pre in
   let w := world_after (build_world counts chains) pre in
@@ -190,6 +196,9 @@ Example C19_nonvacuous_history :
   connected (h_topo s2) = true /\ length (concat (edges (h_topo s2))) = 4 /\
   h_world s2 = world_after w0 [late].
 Proof. vm_compute. repeat split. Qed.
+
+Example C19_activity_ignored : forall s m k, fst (step s (ODown m k)) = s.
+Proof. reflexivity. Qed.
 
 Example C19_nonvacuous_filter :
   let t := filter_nodes (fun m => negb (m =? 1)) (global_topology triangle) in
